@@ -122,6 +122,19 @@ def c16b(ctx):
             if not ok:
                 ctx.fail(o, f, "%s forgets a key (%s) without the storage having confirmed its removal: storage and policy drift apart, the entry is never evicted or accounted" % (
                     fn, f.node["fn"]["path"].rsplit("::", 1)[-1]))
+        # ... and the converse: once the storage HAS confirmed the removal, the policy forgets the key on every path (else it
+        # keeps a ghost: counted against the capacity, chosen as a victim again and again)
+        for cb in cbs:
+            sw = cb.node["t"]
+            if sw is None or b.blocks[sw]["term"]["k"] != "switch":
+                continue
+            tt, ft = df.bool_edges(b, sw)
+            if df.switch_cond(b, sw).negated:
+                tt, ft = ft, tt
+            stop = [x.bb for x in cbs if x is not cb] + [h for lp in df.iter_loops(b) for h in [lp.head.bb]]
+            bad = b.must_pass([tt], [f.bb for f in forget], to_bbs=b.returns() + [x.bb for x in cbs if x is not cb and x.bb in b.reachable([tt])])
+            if bad:
+                ctx.fail(o, cb, "%s: after the storage confirmed the removal of a key the policy can go on without forgetting it (no pop_least_recent / remove on that path)" % fn)
         # on the false edge the key must be kept: either moved to Pinned / shuffled / left alone, never popped
         for cb in cbs:
             sw = cb.node["t"]
